@@ -362,6 +362,17 @@ class CFG:
                 out.append((b, lab))
         return out
 
+    def facts_at(self, target: int, exc: bool = False) -> List[Tuple[ast.AST, bool]]:
+        """Atomic conditions (expr, truth) that hold on every path to `target`: branch outcomes of if/while tests with
+        leading `not` stripped, conjunctions split when true, disjunctions split when false."""
+        out: List[Tuple[ast.AST, bool]] = []
+        for b, lab in self.conditions_at(target, exc):
+            node = self.nodes[b]
+            if node.kind not in ("if", "while"):
+                continue
+            out.extend(split_fact(node.ast.test, lab == "T"))
+        return out
+
     def always_passes_through(self, start: int, goal_pred, stop: Optional[int] = None, exc: bool = False) -> bool:
         """Every non-exceptional path from `start` to `stop` (default: normal exit) meets a node n with goal_pred(n).
         (start itself is not tested.)"""
@@ -401,6 +412,23 @@ class CFG:
 
     def stmt_nodes(self):
         return [n for n in self.nodes if n.kind not in ("entry", "exit", "raise")]
+
+
+def split_fact(e: ast.AST, truth: bool) -> List[Tuple[ast.AST, bool]]:
+    if isinstance(e, ast.UnaryOp) and isinstance(e.op, ast.Not):
+        return split_fact(e.operand, not truth)
+    if isinstance(e, ast.BoolOp):
+        if isinstance(e.op, ast.And) and truth:
+            return [f for v in e.values for f in split_fact(v, True)]
+        if isinstance(e.op, ast.Or) and not truth:
+            return [f for v in e.values for f in split_fact(v, False)]
+    return [(e, truth)]
+
+
+def fact_holds(facts, texts, truth: bool) -> bool:
+    """Is one of the source texts among the facts with the given truth value?"""
+    texts = {texts} if isinstance(texts, str) else set(texts)
+    return any(src(e) in texts and t is truth for e, t in facts)
 
 
 _cfg_cache: Dict[int, CFG] = {}
